@@ -95,8 +95,8 @@ func runAB(r *verifsim.Run) {
 	}})
 	for i := range tr.Ev {
 		for _, cl := range tr.Ev[i].Calls[zz.SinkMotion] {
-			if cl.Op != 'S' {
-				continue
+			if cl.Op != 'S' || cl.Err {
+				continue // (an injected file-creation failure is not a stored recording)
 			}
 			tg := trigOfEv[i]
 			if tg == nil || cl.Bg == nil || cl.Thresh != tg.thresh || zz.SumPix(cl.Bg) != tg.bg {
